@@ -576,9 +576,93 @@ def packguard(ctx, only=None):
     ctx.floor("PACK", "packed fields", n, 5)
 
 
+def cateinv(ctx, crate, E):
+    """CATEINV (C03, C12, C01): CharProperty keeps the category names in a vector indexed by
+    category id (`cate_id`, `cate_str`, the SPACE mask of ignore_space and the unk.def offsets all
+    go through it). The ids are assigned through a name -> id map while char.def is read, so the
+    vector must be the inverse of that map: either it is filled position by position from the
+    map's own entries (`names[id] = name`), or a name is appended exactly when the map did not
+    have it yet. Appending one name per category *line* gives a redefined category two slots and
+    shifts every later id."""
+    from flow import back_slice
+    p = CH + "CharProperty::from_reader"
+    f = crate.fns.get(p)
+    if f is None or not f.body:
+        raise EngineError("CATEINV: anchor lost: %s" % p)
+    fa = E.fa(p)
+    V = None
+    for b, i, s0 in fa.stmts():
+        rv = s0.get("rv")
+        if rv and rv["k"] == "agg" and str(rv.get("adt", "")).endswith("CharProperty") and "categories" in (rv.get("fields") or []):
+            pl = op_place(rv["ops"][rv["fields"].index("categories")])
+            for _ in range(6):
+                d = fa.single_def(pl["l"]) if pl is not None and not pl["p"] else None
+                if d and d[2] == "assign" and d[3]["k"] == "use" and op_place(d[3]["op"]) is not None:
+                    pl = op_place(d[3]["op"])
+                else:
+                    break
+            V = pl["l"] if pl is not None and not pl["p"] else None
+    if V is None:
+        raise EngineError("CATEINV: the `categories` member of the CharProperty that from_reader returns is not a local vector")
+
+    def is_v(op):
+        pl = op_place(op)
+        for _ in range(6):
+            if pl is None:
+                return False
+            if pl["l"] == V:
+                return True
+            d = fa.single_def(pl["l"]) if not [e for e in pl["p"] if e != "*"] else None
+            if d is None:
+                return False
+            if d[2] == "call":
+                if _names(d[3]) & {"deref_mut", "deref", "as_mut_slice", "as_mut"} and d[3]["args"]:
+                    pl = op_place(d[3]["args"][0])
+                    continue
+                return False
+            pl = op_place(d[3]["op"]) if d[3]["k"] == "use" else d[3]["place"] if d[3]["k"] == "ref" else None
+        return False
+    n = 0
+    for b, t in fa.calls():
+        nm = _names(t)
+        if "index_mut" in nm and len(t["args"]) == 2 and is_v(t["args"][0]):
+            # names[<value of a map entry>] = <key of that entry>
+            calls = []
+            back_slice(fa, t["args"][1], lambda bb, tt: calls.append(tt))
+            from_map = any(_names(c) & {"next"} and any("hash_map" in x or "HashMap" in x or "btree" in x.lower() for x in callee_paths(c))
+                           for c in calls)
+            n += 1
+            ctx.ob("CATEINV", "from_reader|slot-is-the-mapped-id|%d" % n, from_map, fa.loc(b),
+                   "a category name is stored at the position given by its entry in the name -> id map" if from_map else
+                   "a category name is stored at a position that does not come from the name -> id map")
+        if "push" in nm and len(t["args"]) == 2 and is_v(t["args"][0]) and \
+                any(b in fa.reachable(x) for x in fa.succs(b)):
+            # appended inside the reading loop: only under a test that the name is new
+            guarded = False
+            for db in fa.dominators().get(b, ()):
+                dt = fa.term(db)
+                if dt["k"] != "switch":
+                    continue
+                calls = []
+                back_slice(fa, dt["op"], lambda bb, tt: calls.append(tt))
+                if any(_names(c) & {"contains_key", "insert", "get", "entry", "is_none", "is_some"} for c in calls) or \
+                        (fa.origin(dt["op"])[0] == "rv" and fa.origin(dt["op"])[1]["k"] == "discr" and
+                         "Entry" in str(fa.origin(dt["op"])[1].get("ty", ""))):
+                    guarded = True
+            n += 1
+            ctx.ob("CATEINV", "from_reader|append-only-new-names|%d" % n, guarded, fa.loc(b),
+                   "a category name is appended only under a test that the map did not have it" if guarded else
+                   "a category name is appended for every category line, whether or not the name already "
+                   "has an id: a redefined category takes a second slot, `cate_id` and `cate_str` no longer "
+                   "invert each other, and the SPACE mask of ignore_space and the unk.def offsets of every "
+                   "later category are off")
+    ctx.floor("CATEINV", "stores into the id -> name vector", n, 1)
+
+
 def run(ctx):
     crate = ctx.facts("A").lib
     E = Effects(crate)
+    cateinv(ctx, crate, E)
     pack(ctx, crate, E)
     cols(ctx, crate, E)
     args(ctx, crate, E)
@@ -589,3 +673,4 @@ def run(ctx):
 def run_key(ctx):
     crate = ctx.facts("A").lib
     charkey(ctx, crate, Effects(crate))
+    cateinv(ctx, crate, Effects(crate))
